@@ -164,6 +164,7 @@ func walkShape(s Shape, f func(Shape)) {
 // ---------------------------------------------------------------------------------------------
 
 type shapeFrame struct {
+	inLoop int
 	fn     *FuncRef
 	info   *types.Info
 	pc     *pathCtx
@@ -292,9 +293,17 @@ func (se *ShapeEval) restore(fr *shapeFrame, s envSnap) {
 }
 
 func (se *ShapeEval) stmts(fr *shapeFrame, list []ast.Stmt) {
-	for _, s := range list {
+	for i, s := range list {
 		if fr.hasRet {
 			return
+		}
+		// `if c { continue }` followed by the rest of a loop body is `if !c { rest }`
+		if is, ok := s.(*ast.IfStmt); ok && is.Else == nil && is.Init == nil && len(is.Body.List) == 1 && fr.inLoop > 0 {
+			if br, ok := is.Body.List[0].(*ast.BranchStmt); ok && br.Tok == token.CONTINUE && br.Label == nil {
+				rest := &ast.IfStmt{If: is.If, Cond: &ast.UnaryExpr{OpPos: is.Cond.Pos(), Op: token.NOT, X: &ast.ParenExpr{X: is.Cond}}, Body: &ast.BlockStmt{List: list[i+1:]}}
+				se.stmt(fr, rest)
+				return
+			}
 		}
 		se.stmt(fr, s)
 	}
@@ -614,7 +623,9 @@ func (se *ShapeEval) loop(fr *shapeFrame, s ast.Stmt) {
 		markFld[k] = m
 		se.fields[k] = m
 	}
+	fr.inLoop++
 	se.stmts(fr, body.List)
+	fr.inLoop--
 	if fr.hasRet {
 		se.errf(s.Pos(), "return inside a loop of a fragment builder")
 	}
@@ -820,7 +831,7 @@ func (se *ShapeEval) sprintf(fr *shapeFrame, call *ast.CallExpr) Shape {
 			switch v {
 			case '%':
 				out = append(out, &SLit{"%"})
-			case 'd', 's', 'v', 'q':
+			case 'd', 's', 'v', 'q', 'c':
 				if ai >= len(args) {
 					se.errf(call.Pos(), "format has more verbs than arguments")
 					out = append(out, &SLit{"%!" + string(v) + "(MISSING)"})
